@@ -34,6 +34,7 @@ import (
 	"oras.land/oras-go/v2/internal/graph"
 	"oras.land/oras-go/v2/internal/ioutil"
 	"oras.land/oras-go/v2/internal/resolver"
+	"oras.land/oras-go/v2/internal/verifhook"
 )
 
 // bufPool is a pool of byte buffers that can be reused for copying content
@@ -290,6 +291,7 @@ func (s *Store) push(ctx context.Context, expected ocispec.Descriptor, content i
 // names.
 // See Store.ForceCAS for more info.
 func (s *Store) restoreDuplicates(ctx context.Context, desc ocispec.Descriptor) error {
+	verifhook.At("file.push.beforeRestoreDuplicates")
 	successors, err := content.Successors(ctx, s, desc)
 	if err != nil {
 		return err
